@@ -7,6 +7,7 @@ import (
 	"io"
 	"os"
 	"path/filepath"
+	"strings"
 	"time"
 
 	"github.com/cheggaaa/pb/v3"
@@ -102,8 +103,34 @@ func readDirManifest(path string) (man directoryManifest, err error) {
 		return
 	}
 	defer f.Close()
-	err = json.NewDecoder(f).Decode(&man)
+	if err = json.NewDecoder(f).Decode(&man); err != nil {
+		return
+	}
+	err = validateDirManifest(man)
 	return
+}
+
+// validateDirManifest ensures every entry of a directory manifest names a
+// direct child of the directory: a single, non-empty path component that
+// matches the entry's key. Anything else (e.g. "../x", "a/b", an absolute
+// path) would make checkout write outside of the artifact's directory.
+func validateDirManifest(man directoryManifest) error {
+	for name, art := range man.Contents {
+		if art == nil {
+			return fmt.Errorf("invalid directory manifest: entry %#v is null", name)
+		}
+		if art.Path != name ||
+			name == "" || name == "." || name == ".." ||
+			strings.ContainsRune(name, filepath.Separator) ||
+			strings.ContainsRune(name, 0) {
+			return fmt.Errorf(
+				"invalid directory manifest: entry %#v has invalid path %#v",
+				name,
+				art.Path,
+			)
+		}
+	}
+	return nil
 }
 
 // InvalidChecksumError is an error case where a valid checksum was expected
